@@ -32,7 +32,7 @@ def run(ctx):
                          "rule": "message pairs (84-message small universe exhaustively + seeded structured random "
                                  "triples); non-trivial = pairs with equal timestamps (the tie-break decides)",
                          "input_distribution": stats})
-    div = ctx.kdiff("cmp(isBefore,isBeforeExt,qElemBefore)", ops, cf)
+    div = ctx.kdiff("c16", "cmp(isBefore,isBeforeExt,qElemBefore)", ops, cf)
     lines = open(orf).read().splitlines()
     ctx.samples += open(ops).read().splitlines()[7000:7003]
     for l in lines[:5]:
